@@ -264,13 +264,14 @@ int main(int argc, char** argv)
   else if(mode == "deep")
   {
     static const int depths[] = {1, 10, 100, 1000};
-    for(int k = 0; k < 3; ++k) for(int d = 0; d < 4; ++d) for(int closed = 0; closed < 2; ++closed)
+    // kinds 3 / 4: every level also holds a scalar / an empty container before the next level opens
+    for(int k = 0; k < 5; ++k) for(int d = 0; d < 4; ++d) for(int closed = 0; closed < 2; ++closed)
     {
       if(!sh.take()) continue;
       std::string text;
-      for(int i = 0; i < depths[d]; ++i) text += k == 0 ? "[" : k == 1 ? "{\"a\":" : (i & 1) ? "{\"a\":" : "[";
+      for(int i = 0; i < depths[d]; ++i) text += k == 0 ? "[" : k == 1 ? "{\"a\":" : k == 3 ? "[0," : k == 4 ? "[[],{}," : (i & 1) ? "{\"a\":" : "[";
       text += "1";
-      if(closed) for(int i = depths[d] - 1; i >= 0; --i) text += k == 0 ? "]" : k == 1 ? "}" : (i & 1) ? "}" : "]";
+      if(closed) for(int i = depths[d] - 1; i >= 0; --i) text += (k == 0 || k >= 3) ? "]" : k == 1 ? "}" : (i & 1) ? "}" : "]";
       std::string cs = vf::fmt("deep kind=%d depth=%d closed=%d", k, depths[d], closed);
       vf::crumb("json.deep", sh.token(), cs);
       vf::watchdog_arm(30000);
@@ -290,7 +291,31 @@ int main(int argc, char** argv)
       vf::sample(cs, 2);
     }
   }
-  else if(mode == "round")
+  if(mode == "deep")
+  { // wide documents: n members for n = 0..300 and around every power of two up to 2^14, as array of scalars, array of empty containers, object
+    std::vector<int> counts;
+    for(int n = 0; n <= 300; ++n) counts.push_back(n);
+    for(int k = 9; k <= 14; ++k) for(int d = -1; d <= 1; ++d) counts.push_back((1 << k) + d);
+    for(size_t ci = 0; ci < counts.size(); ++ci) for(int kind = 0; kind < 3; ++kind)
+    {
+      if(!sh.take()) continue;
+      int n = counts[ci];
+      Variant t;
+      if(kind == 2) { HashMap<String, Variant>& m = t.toMap(); for(int i = 0; i < n; ++i) m.append(String::fromInt(i), Variant(i)); }
+      else { List<Variant>& l = t.toList(); for(int i = 0; i < n; ++i) { if(kind == 0) l.append(Variant(i)); else { Variant e; if(i & 1) e.toMap(); else e.toList(); l.append(e); } } }
+      std::string cs = vf::fmt("wide kind=%d members=%d", kind, n);
+      vf::crumb("json.deep", sh.token(), cs);
+      vf::watchdog_arm(60000);
+      String text = Json::toString(t);
+      vf::Exact e(std::string((const char*)text, text.length()), true);
+      Json::Parser p; Variant w;
+      vf::hit("deep_inputs"); vf::hit("wide_documents"); vf::hit("distinct_nontrivial");
+      if(!p.parse((const char*)e.p, w))
+        vf::violation("C15:json:roundtrip", cs, vf::fmt("serialised text is rejected: line %d column %d: %s", p.getErrorLine(), p.getErrorColumn(), (const char*)p.getErrorString()));
+      else if(!(w == t) || !(t == w) || !sameNumbers(t, w)) vf::violation("C15:json:roundtrip", cs, "re-parsed tree differs");
+    }
+  }
+  if(mode == "round")
   {
     int nodes = (int)vf::argll(argc, argv, "--nodes", 3);
     Gen g;
